@@ -107,6 +107,8 @@ fn kinds() -> Vec<KindDef> {
         KindDef { name: "sector-crc", spec: base(1, Attrs::CrcsThenNone, true, files_basic()), signed: false, protects: &["file-data"], prefix: 0, intact_only: false },
         KindDef { name: "attr-crc32", spec: base(1, Attrs::Crc32, false, files_basic()), signed: false, protects: &["file-data", "sector-offset-table", "attributes-file"], prefix: 0, intact_only: false },
         KindDef { name: "attr-full-md5", spec: base(2, Attrs::Full, false, files_basic()), signed: false, protects: &["file-data", "sector-offset-table", "attributes-file"], prefix: 0, intact_only: false },
+        // CRC32+MD5 attributes and no sector checksums: the attribute digests are all that protects the file data
+        KindDef { name: "attr-full-md5-no-sector-crc", spec: base(1, Attrs::FullThenNoCrcs, false, files_basic()), signed: false, protects: &["file-data", "sector-offset-table", "attributes-file"], prefix: 0, intact_only: false },
         KindDef { name: "v3-attr-crc32", spec: base(3, Attrs::Crc32, false, files_basic()), signed: false, protects: &["file-data", "sector-offset-table", "attributes-file"], prefix: 0, intact_only: false },
         KindDef { name: "v4-digests", spec: base(4, Attrs::None, false, files_basic()), signed: false, protects: &["header", "hash-table", "block-table", "het-table", "bet-table"], prefix: 0, intact_only: false },
         KindDef { name: "v4-digests-attr", spec: base(4, Attrs::Full, false, files_basic()), signed: false, protects: &["header", "hash-table", "block-table", "het-table", "bet-table", "file-data", "sector-offset-table", "attributes-file"], prefix: 0, intact_only: false },
@@ -356,7 +358,13 @@ fn judge_path(cx: &Ctx, path: &std::path::Path, region: Option<&Region>) -> Resu
         let want = &cx.b.contents[i];
         let got = engine::guard("read_file", || ar.read_file(&f.name))?;
         let differs = match got {
-            Err(_) => {
+            Err(e) => {
+                if std::env::var("VERIF_C10_DEBUG").is_ok() {
+                    use std::io::Write;
+                    if let Ok(mut fh) = std::fs::OpenOptions::new().create(true).append(true).open("/tmp/c10debug.log") {
+                        let _ = writeln!(fh, "[c10] {}: read error {e}", f.name);
+                    }
+                }
                 if intact {
                     return Err(Fail::new(format!("intact-file-unreadable:{kind}"), format!("{}", f.name)));
                 }
@@ -384,6 +392,12 @@ fn judge_path(cx: &Ctx, path: &std::path::Path, region: Option<&Region>) -> Resu
                 ));
             }
             continue;
+        }
+        if std::env::var("VERIF_C10_DEBUG").is_ok() {
+            use std::io::Write;
+            if let Ok(mut fh) = std::fs::OpenOptions::new().create(true).append(true).open("/tmp/c10debug.log") {
+                let _ = writeln!(fh, "[c10] {}: differs={differs} verified={verified} last_error={}", f.name, cx.storm.last_error());
+            }
         }
         if differs {
             if !verified {
